@@ -176,6 +176,15 @@ def verify_function(c, rep, tier='quick', timeout_ms=8000, bound=3):
     except RecursionError:
         out.append(rep.add(Ob('encode:' + qn, 'P', 'undecided', 'pyvc', time.time() - t0, 'recursion limit', function=qn)))
         obs = None
+    except (AttributeError, TypeError, KeyError, IndexError, ValueError, z3.Z3Exception) as ex2:
+        # the sidecar contract (an invariant, a postcondition, an abstraction) no longer fits the text of the function -- a local it names
+        # now holds a value of another kind, say: the proof cannot be re-established on this text; that is "undecided", never a verdict
+        import traceback
+        tb = traceback.extract_tb(ex2.__traceback__)
+        where = next(('%s:%d' % (os.path.basename(f.filename), f.lineno) for f in reversed(tb) if '/contracts/' in f.filename), '%s:%d' % (os.path.basename(tb[-1].filename), tb[-1].lineno))
+        out.append(rep.add(Ob('encode:' + qn, 'P', 'undecided', 'pyvc', time.time() - t0,
+                              'the contract does not fit the current text of the function (%s at %s: %s)' % (type(ex2).__name__, where, str(ex2)[:200]), function=qn)))
+        obs = None
     if obs is not None:
         # vacuity: precondition satisfiable (bounded instance), obligation count
         if len(obs) < getattr(c, 'min_obligations', 1):
